@@ -41,6 +41,8 @@ type Host struct {
 type DB struct {
 	Hosts []*Host
 	Vers  map[int64]uint64
+	// databases created by the bootstrap (tcp.go: CREATE DATABASE IF NOT EXISTS), on every host at once
+	Exists map[string]bool
 }
 
 func newHost() *Host { return &Host{Objs: map[string]*Obj{}, Rows: map[[2]string]bool{}} }
@@ -49,7 +51,7 @@ func NewDB(nhosts int) *DB {
 	if nhosts < 1 {
 		nhosts = 1
 	}
-	d := &DB{Vers: map[int64]uint64{}}
+	d := &DB{Vers: map[int64]uint64{}, Exists: map[string]bool{}}
 	for i := 0; i < nhosts; i++ {
 		d.Hosts = append(d.Hosts, newHost())
 	}
@@ -72,9 +74,12 @@ func (h *Host) clone() *Host {
 }
 
 func (d *DB) Clone() *DB {
-	n := &DB{Vers: map[int64]uint64{}}
+	n := &DB{Vers: map[int64]uint64{}, Exists: map[string]bool{}}
 	for _, h := range d.Hosts {
 		n.Hosts = append(n.Hosts, h.clone())
+	}
+	for k, v := range d.Exists {
+		n.Exists[k] = v
 	}
 	for k, v := range d.Vers {
 		n.Vers[k] = v
@@ -245,7 +250,7 @@ func (d *Host) execStmt(s *Stmt) error {
 
 // ---------------------------------------------------------------- observations
 type Event struct {
-	T    string        `json:"t"` // cv | cvd | rd | s | iv | o
+	T    string        `json:"t"` // cv | cvd | rd | s | iv | o | cdb | sdb (bootstrap: CREATE DATABASE, SHOW CREATE DATABASE)
 	K    int64         `json:"k,omitempty"`
 	V    uint64        `json:"v,omitempty"`
 	Stmt []interface{} `json:"stmt,omitempty"` // canonical structure of a script statement
